@@ -84,6 +84,23 @@ def unary_op(op: str, arg):
     raise RuntimeError(f"Invalid unary operation {op}")
 
 
+def flatten_sum(expr):
+    """Flatten nested (unevaluated) sums, e.g. x + (pi + y) -> x + pi + y
+
+    Sums are built with evaluate=False, so they can be nested. The automatic
+    evaluation of sympy's functions assumes that the terms of a sum are not
+    sums themselves: cos(x + (pi + y)) would treat (pi + y) as the period pi
+    and return -cos(x), silently dropping y.
+    """
+    if not isinstance(expr, sp.Add):
+        return expr
+    terms = []
+    for arg in expr.args:
+        arg = flatten_sum(arg)
+        terms.extend(arg.args if isinstance(arg, sp.Add) else [arg])
+    return sp.Add(*terms, evaluate=False)
+
+
 def build_expression(
     root: lark.Tree,
     symbols: dict[str, sp.Symbol] | None = None,
@@ -149,7 +166,8 @@ def build_expression(
                 # Only exceptions is 'abs' which is 'Abs'
                 funcname = "Abs"
 
-            return getattr(sp, funcname)(*[expr2symbols(c) for c in tree.children[1:]])
+            args = [flatten_sum(expr2symbols(c)) for c in tree.children[1:]]
+            return getattr(sp, funcname)(*args)
 
         if tree.data == "logicalfunc":
             if tree.children[0] == "Conditional":
